@@ -36,7 +36,7 @@ CONFIG = dict(
     mode="accept",
     reset_prefix="reset",
     runs={
-        "quick": [dict(name="main", env={"VERIF_N": "3000"}, timeout=150)],
+        "quick": [dict(name="main", env={"VERIF_N": "5000"}, timeout=150)],
         "thorough": [dict(name="main", env={"VERIF_N": "4000"}, timeout=800),
                      dict(name="seed2", env={"VERIF_N": "2500"}, seed_offset=1000, timeout=800),
                      dict(name="seed3", env={"VERIF_N": "2500"}, seed_offset=2000, timeout=800)],
